@@ -18,6 +18,10 @@
 //!      `ZCurve { part_count, order }.partition`; per-point region codes and the reordered
 //!      permutation from the hooks.      out: `ok | <codes along the permutation> | <sorted code:id pairs>`
 //!      (both observables are invariant under the unstable sort's order of equal codes).
+//!      Suffix `=> <code…> | <frame coordinates…>` (up to MAPPED_CAP values): the points in the frame of the oriented
+//!      box (hook `geometry::obb_frame`); the model then computes the cells ITSELF (box, centres, halving: `cellDigits`)
+//!      and the hook's codes are only what the implementation line is printed with; the harness does the same in
+//!      `ref_cells` and applies the contiguity oracle to those cells (`zcurve-cell-differs-from-reference`).
 //! `wqs <pool> <parts> <n> <scale> <idx…> <w…>`, `hils <dim> <pool> <order> <parts> <n> <scale> <coords…> <w…>`
 //!      `wq` / `hil` with every weight multiplied by `<scale>` (f64 bits); for a power of two the harness also
 //!      runs the unscaled weights and requires identical positions and ids (scale invariance).
@@ -623,7 +627,66 @@ fn zcurve_oracle(codes: &[Vec<u8>], perm: &[usize], ids: &[usize], parts: usize)
     None
 }
 
+/// The library's CELL ARITHMETIC restated independently (the executable model of
+/// `BoundingBox::{from_points, contains, center, region, sub_aabb}` as documented: the box of the
+/// points in the oriented frame is halved `order` times, the centre of a cell is `(min + max) / 2`,
+/// bit `i` of a region is set when the coordinate is strictly ABOVE the centre by the IEEE
+/// comparison, a point the tolerance test `min - 10 eps < x < max + 10 eps` puts outside gets region
+/// 0). Input: the points mapped into the frame (hook `geometry::obb_frame`: one matrix-vector
+/// product each, no cell arithmetic involved). Every operation is an IEEE comparison or an exactly
+/// specified `+`, `/ 2`: the sign of a zero (in a coordinate, a box corner or a centre) cannot
+/// matter, the halving of subnormal cells rounds as `(min + max) / 2` rounds. The same arithmetic
+/// is run by the Lean driver (`cellDigits`) on the same mapped points.
+fn ref_cells(dim: usize, mapped: &[f64], order: usize) -> Vec<Vec<u8>> {
+    let eps = 10.0 * f64::EPSILON;
+    let mut lo0 = vec![f64::MAX; dim];
+    let mut hi0 = vec![f64::MIN; dim];
+    for p in mapped.chunks(dim) {
+        for i in 0..dim {
+            if p[i] < lo0[i] {
+                lo0[i] = p[i];
+            }
+            if hi0[i] < p[i] {
+                hi0[i] = p[i];
+            }
+        }
+    }
+    mapped
+        .chunks(dim)
+        .map(|p| {
+            let (mut lo, mut hi) = (lo0.clone(), hi0.clone());
+            let mut code = Vec::with_capacity(order);
+            for _ in 0..order {
+                let inside = (0..dim).all(|i| p[i] < hi[i] + eps && p[i] > lo[i] - eps);
+                let centre: Vec<f64> = (0..dim).map(|i| (lo[i] + hi[i]) / 2.0).collect();
+                let mut r = 0u8;
+                if inside {
+                    for i in 0..dim {
+                        if p[i] > centre[i] {
+                            r |= 1 << i;
+                        }
+                    }
+                }
+                for i in 0..dim {
+                    if (r >> i) & 1 == 0 {
+                        hi[i] = centre[i];
+                    } else {
+                        lo[i] = centre[i];
+                    }
+                }
+                code.push(r);
+            }
+            code
+        })
+        .collect()
+}
+
+/// The mapped points travel to the model (which then computes the cells itself) up to this many values.
+const MAPPED_CAP: usize = 60_000;
+
 struct ZcRan {
+    /// the points in the frame of the oriented bounding box (hook), flattened
+    mapped: Option<Vec<f64>>,
     ids: Vec<usize>,
     perm: Vec<usize>,
     codes: Vec<Vec<u8>>,
@@ -689,7 +752,8 @@ fn zc_exec(ctx: &mut Ctx, base: String, dim: usize, pool: usize, order: u64, par
                     coupe::ZCurve { part_count: parts, order: order as u32 }.partition(&mut ids0, &pts2(cz)[..]).unwrap();
                     ids0
                 });
-                ZcRan { ids, perm, codes, poszero }
+                let mapped = coupe::verif::geometry::obb_frame::<2>(&p).map(|(m, _)| m.iter().flat_map(|q| [q[0], q[1]]).collect::<Vec<f64>>());
+                ZcRan { mapped, ids, perm, codes, poszero }
             } else {
                 let p = pts3(&coords2);
                 if reuse == 1 {
@@ -708,7 +772,8 @@ fn zc_exec(ctx: &mut Ctx, base: String, dim: usize, pool: usize, order: u64, par
                     coupe::ZCurve { part_count: parts, order: order as u32 }.partition(&mut ids0, &pts3(cz)[..]).unwrap();
                     ids0
                 });
-                ZcRan { ids, perm, codes, poszero }
+                let mapped = coupe::verif::geometry::obb_frame::<3>(&p).map(|(m, _)| m.iter().flat_map(|q| [q[0], q[1], q[2]]).collect::<Vec<f64>>());
+                ZcRan { mapped, ids, perm, codes, poszero }
             }
         })
     });
@@ -731,6 +796,45 @@ fn zc_exec(ctx: &mut Ctx, base: String, dim: usize, pool: usize, order: u64, par
             ));
         }
     }
+    // independent cells: the contiguity oracle over the cells of the reference arithmetic, then the
+    // exact comparison of the cells the algorithm's own functions report with them
+    let mut mapped_for_model: Option<&Vec<f64>> = None;
+    match &ran.mapped {
+        Some(mapped) if mapped.len() == n * dim && mapped.iter().all(|x| x.is_finite()) => {
+            ctx.count("zc:ref-cells:checked");
+            if mapped.iter().any(|x| *x != 0.0 && x.abs() < f64::MIN_POSITIVE) {
+                ctx.count("zc:ref-cells:subnormal-frame-coordinates");
+            }
+            if (0..dim).any(|i| mapped.chunks(dim).all(|p| p[i] == 0.0)) {
+                ctx.count("zc:ref-cells:degenerate-zero-axis");
+                if (0..dim).any(|i| mapped.chunks(dim).all(|p| p[i] == 0.0) && mapped.chunks(dim).any(|p| p[i].is_sign_negative()) && mapped.chunks(dim).any(|p| p[i].is_sign_positive())) {
+                    ctx.count("zc:ref-cells:degenerate-zero-axis:both-signs");
+                }
+            }
+            let refc = ref_cells(dim, mapped, order as usize);
+            if v.is_none() {
+                v = zcurve_oracle(&refc, &ran.perm, &ran.ids, parts).map(|(s, w)| (s, format!("{} [cells of the reference arithmetic on the frame coordinates]", w)));
+            }
+            if v.is_none() && refc != ran.codes {
+                let p = (0..n).find(|&p| refc.get(p) != ran.codes.get(p)).unwrap_or(0);
+                v = Some((
+                    "zcurve-cell-differs-from-reference".to_string(),
+                    format!(
+                        "point {} (frame coordinates {}): the algorithm's functions put it in cell {}, the reference arithmetic in {}",
+                        p,
+                        fmt_f(&mapped[p * dim..(p + 1) * dim]),
+                        ran.codes.get(p).map(|c| code_str(c)).unwrap_or("?".into()),
+                        refc.get(p).map(|c| code_str(c)).unwrap_or("?".into())
+                    ),
+                ));
+            }
+            if mapped.len() <= MAPPED_CAP {
+                mapped_for_model = Some(mapped);
+            }
+        }
+        Some(_) => ctx.count("zc:ref-cells:not-judged:non-finite-frame"),
+        None => ctx.count("zc:ref-cells:not-judged:no-frame"),
+    }
     let a: Vec<String> = ran.perm.iter().map(|&p| ran.codes.get(p).map(|c| code_str(c)).unwrap_or("?".into())).collect();
     let mut pairs: Vec<(&Vec<u8>, usize)> = ran.codes.iter().zip(ran.ids.iter().copied()).collect();
     pairs.sort();
@@ -739,6 +843,11 @@ fn zc_exec(ctx: &mut Ctx, base: String, dim: usize, pool: usize, order: u64, par
     let op = format!("{} => {}", base, join(&ran.codes.iter().map(|c| code_str(c)).collect::<Vec<_>>()))
         .trim_end()
         .to_string();
+    // `| <frame coordinates…>`: the model computes the cells itself from them (and ignores the hook's)
+    let op = match mapped_for_model {
+        Some(m) if n > 0 => format!("{} | {}", op, fmt_f(m)),
+        _ => op,
+    };
     let mut distinct = ran.codes.clone();
     distinct.sort();
     distinct.dedup();
@@ -1346,6 +1455,10 @@ pub fn generate(ctx: &mut Ctx) {
     zc_box_corner_stream(ctx);
     // (8) SPECIAL VALUES: signed zeros (coordinates, weights), subnormal and near-overflow totals
     negzero_stream(ctx);
+    // (8b) signed zeros on DEGENERATE frame axes (lines / planes through zero, both signs) and
+    // SUBNORMAL cells; all of them against the reference cell arithmetic
+    zc_signed_zero_stream(ctx);
+    zc_subnormal_stream(ctx);
     // (9) calling CONTEXT (global pool, inside a rayon task, concurrent calls, input types) and
     // FIRST-CALL sequences in a fresh child process
     context_stream(ctx);
@@ -1861,6 +1974,307 @@ fn negzero_stream(ctx: &mut Ctx) {
         let idx: Vec<u64> = (0..n).map(|_| ctx.rng.below(1 << 30)).collect();
         ctx.count("special:magnitude:huge-weights");
         run_op(ctx, &format!("wq 1 {} {} {} {}", parts, n, join(&idx), fmt_f(&w)));
+    }
+}
+
+// ------------------------------------------------------------------ signed zeros on degenerate axes, subnormal cells
+
+/// A zero whose sign is chosen by pattern `pat` for point `j` with abscissa `x`:
+/// 0 all `+0.0`, 1 all `-0.0`, 2 alternating along the input, 3 the sign of the abscissa,
+/// 4 the opposite sign, 5 random.
+fn zero_of(pat: usize, j: usize, x: f64, rng: &mut Rng) -> f64 {
+    let neg = match pat {
+        0 => false,
+        1 => true,
+        2 => j % 2 == 1,
+        3 => x < 0.0,
+        4 => x > 0.0,
+        _ => rng.chance(1, 2),
+    };
+    if neg {
+        -0.0
+    } else {
+        0.0
+    }
+}
+
+/// SIGNED-ZERO / DEGENERATE-AXIS stream (added after seeded change C09-r3-1: a comparison of
+/// `region` replaced by the total order, which separates `-0.0` from `+0.0`). Point sets that lie
+/// on a line or a plane THROUGH ZERO with coordinates of both signs, so that an axis of the
+/// oriented frame is exactly degenerate at zero and the frame products give that zero either sign
+/// (`0 * x` has the sign of `x`): coordinate axes and coordinate planes with every sign pattern of
+/// the constant zero (all `+0.0`, all `-0.0`, alternating, following / opposing the sign of the
+/// abscissa, random), lines and planes spanned by small integer vectors, sets with their mirror
+/// images (negation is how `-0.0` arises), `-0.0` among the abscissae; first point positive or
+/// negative, sorted, reversed, positives first, negatives first; pools 1/2/3/4/16 (which corner of
+/// the box gets which zero depends on rayon's fold segments); orders 0-12 and deep; part counts
+/// 2, 3, n-1, n, random. Every case gets the oracle over the hook's cells, the oracle over the
+/// cells of the reference arithmetic (`ref_cells`), the exact comparison of the two, the
+/// comparison with the `+0.0` run and the comparison with the model's own cells.
+fn zc_signed_zero_stream(ctx: &mut Ctx) {
+    let lines: [&[i64]; 4] = [
+        &[3, -1, 2, -2, 1, -3, 4, -4],
+        &[-3, 1, -2, 2, -1, 3, -4, 4],
+        &[5, 4, 3, 2, 1, -1, -2, -3, -4, -5, -6, 6, 7, -7, 8, -8],
+        &[-5, -4, -3, -2, -1, 0, 1, 2, 3, 4, 5],
+    ];
+    // fixed core (every run): collinear points on each coordinate axis, every zero pattern
+    for dim in [2usize, 3] {
+        for axis in 0..dim {
+            for pat in 0..5 {
+                for xs in lines {
+                    let n = xs.len();
+                    let mut c = Vec::new();
+                    for (j, &x) in xs.iter().enumerate() {
+                        for d in 0..dim {
+                            c.push(if d == axis { x as f64 } else { zero_of(pat, j + d, x as f64, &mut ctx.rng) });
+                        }
+                    }
+                    for (pool, order, parts) in [(1usize, 4u64, 3usize), (3, 12, n), (1, 1, 2), (4, 7, n - 1)] {
+                        ctx.count("special:signed-zero:core-axis-line");
+                        run_op(ctx, &format!("zc {} {} {} {} {} {}", dim, pool, order, parts, n, fmt_f(&c)));
+                    }
+                }
+            }
+        }
+    }
+    for _ in 0..ctx.budget(300, 6000) {
+        let dim = 2 + ctx.rng.usize(2);
+        let big = ctx.rng.chance(1, 8);
+        let n = 2 + ctx.rng.usize(if big { 200 } else { 22 });
+        let pat = ctx.rng.usize(6);
+        let scale = [1.0, 1.0, 0.125, 1024.0, 3.0][ctx.rng.usize(5)];
+        let span = [2i64, 8, 100][ctx.rng.usize(3)];
+        // the spanning vectors: a coordinate axis, a coordinate plane (3-D), or small integer vectors
+        let kind = ctx.rng.usize(4);
+        let mut a: Vec<i64> = vec![0; dim];
+        let mut b: Vec<i64> = vec![0; dim];
+        let name = match kind {
+            0 => {
+                let ax = ctx.rng.usize(dim);
+                a[ax] = 1;
+                "axis-line"
+            }
+            1 if dim == 3 => {
+                let ax = ctx.rng.usize(3);
+                a[(ax + 1) % 3] = 1;
+                b[(ax + 2) % 3] = 1;
+                "coordinate-plane"
+            }
+            2 if dim == 3 => {
+                while a.iter().all(|x| *x == 0) {
+                    a = (0..dim).map(|_| ctx.rng.range(-2, 2)).collect();
+                }
+                while b.iter().all(|x| *x == 0) {
+                    b = (0..dim).map(|_| ctx.rng.range(-2, 2)).collect();
+                }
+                "oblique-plane"
+            }
+            _ => {
+                while a.iter().all(|x| *x == 0) {
+                    a = (0..dim).map(|_| ctx.rng.range(-2, 2)).collect();
+                }
+                "oblique-line"
+            }
+        };
+        let planar = b.iter().any(|x| *x != 0);
+        let mirrored = ctx.rng.chance(1, 3);
+        let m = if mirrored { (n + 1) / 2 } else { n };
+        let mut st: Vec<(i64, i64)> = (0..m).map(|_| (ctx.rng.range(-span, span), if planar { ctx.rng.range(-span, span) } else { 0 })).collect();
+        match ctx.rng.usize(6) {
+            0 => st.sort(),
+            1 => {
+                st.sort();
+                st.reverse();
+            }
+            2 => st.sort_by_key(|x| (x.0 < 0, x.0)), // non-negative abscissae first
+            3 => st.sort_by_key(|x| (x.0 >= 0, x.0)), // negative abscissae first
+            _ => {}
+        }
+        let mut c: Vec<f64> = Vec::new();
+        let mut count = 0usize;
+        for (j, (t, u)) in st.iter().enumerate() {
+            let mut q: Vec<f64> = Vec::with_capacity(dim);
+            for d in 0..dim {
+                let v = (t * a[d] + u * b[d]) as f64 * scale;
+                q.push(if v == 0.0 { zero_of(pat, j + d, *t as f64, &mut ctx.rng) } else { v });
+            }
+            c.extend(q.iter().copied());
+            count += 1;
+            if mirrored && count < n {
+                c.extend(q.iter().map(|x| -*x));
+                count += 1;
+            }
+        }
+        let n = count;
+        let pool = [1usize, 1, 2, 3, 4, 16][ctx.rng.usize(6)];
+        let max_order = if dim == 2 { 64 } else { 42 };
+        let order = match ctx.rng.usize(6) {
+            0 => 1,
+            1 => 2,
+            2 => 13 + ctx.rng.usize(max_order - 12),
+            _ => ctx.rng.usize(13),
+        };
+        let parts = match ctx.rng.usize(5) {
+            0 => 2,
+            1 => 3,
+            2 => n,
+            3 => (n - 1).max(1),
+            _ => gen_parts(ctx, n),
+        };
+        ctx.count(&format!("special:signed-zero:{}{}", name, if mirrored { ":mirrored" } else { "" }));
+        ctx.count(&format!("special:signed-zero:pattern{}", pat));
+        run_op(ctx, &format!("zc {} {} {} {} {} {}", dim, pool, order, parts, n, fmt_f(&c)));
+        if ctx.rng.chance(1, 4) {
+            // the same set through HilbertCurve (unit or small integer weights): oracle and the `+0.0` run
+            let horder = 1 + ctx.rng.usize(if dim == 2 { 32 } else { 21 });
+            let ones = ctx.rng.chance(1, 2);
+            let w: Vec<f64> = (0..n).map(|_| if ones { 1.0 } else { ctx.rng.range(1, 4) as f64 }).collect();
+            ctx.count("special:signed-zero:hil");
+            run_op(ctx, &format!("hil {} {} {} {} {} {} {}", dim, pool, horder, parts, n, fmt_f(&c), fmt_f(&w)));
+        }
+    }
+    ctx.notes.push(
+        "signed-zero stream: point sets on lines / planes through zero with coordinates of both signs and every sign pattern of the \
+         constant zero (degenerate frame axis at zero, corners and points with zeros of either sign), pools 1/2/3/4/16, orders 0-12 and deep: \
+         oracle over the hook's cells and over the reference arithmetic's cells, exact cell comparison, `+0.0` run, model's own cells"
+            .to_string(),
+    );
+}
+
+/// `k` units of the smallest subnormal (`k * 5e-324`, exact), of either sign.
+fn sub(k: i64) -> f64 {
+    if k < 0 {
+        -f64::from_bits(k.unsigned_abs())
+    } else {
+        f64::from_bits(k as u64)
+    }
+}
+
+/// SUBNORMAL stream (added after seeded change C09-r3-2: the cell centre computed as
+/// `min / 2 + max / 2`, which rounds twice on subnormal corners). Coordinates that are small
+/// multiples of 5e-324 (cells whose corners are neighbouring subnormals: the centre is not
+/// representable and `(min + max) / 2` rounds to even), of both signs, up to 2^20 units, scaled by
+/// powers of two, and around the smallest normal; on a coordinate axis (the other coordinates `0.0`,
+/// `-0.0` or one subnormal constant), as independent coordinates, on the diagonals. The inertia
+/// matrix of such sets underflows to zero; whatever frame results, the cells must be those of the
+/// reference arithmetic on the frame coordinates. Exhaustive part: every 3-element (thorough: and
+/// 4-element) subset of {0..12} x 5e-324 on each axis, two input orders, orders 12 and 30 (thorough:
+/// also 3 and the maximum), one part per point.
+fn zc_subnormal_stream(ctx: &mut Ctx) {
+    let quick = ctx.quick();
+    let sizes: &[u32] = if quick { &[3] } else { &[3, 4] };
+    let placements: &[(usize, usize)] = if quick { &[(2, 0), (2, 1)] } else { &[(2, 0), (2, 1), (3, 2), (3, 0)] };
+    let mut subsets = 0usize;
+    for mask in 0u32..(1 << 13) {
+        if !sizes.contains(&mask.count_ones()) {
+            continue;
+        }
+        subsets += 1;
+        let asc: Vec<i64> = (0..13).filter(|k| (mask >> k) & 1 == 1).collect();
+        let n = asc.len();
+        let desc: Vec<i64> = asc.iter().rev().copied().collect();
+        let mut rot = asc.clone();
+        rot.rotate_left(1);
+        // largest first then ascending: the order of the seed's own witness {10, 3, 2} reversed in part
+        let mut big_first = desc.clone();
+        big_first[1..].reverse();
+        for ks in [&desc, &rot, &big_first] {
+            for &(dim, axis) in placements {
+                let mut c = Vec::new();
+                for &k in ks.iter() {
+                    for d in 0..dim {
+                        c.push(if d == axis { sub(k) } else { 0.0 });
+                    }
+                }
+                let orders: &[u64] = if quick { &[12, 30] } else if dim == 2 { &[3, 12, 30, 64] } else { &[3, 12, 30, 42] };
+                for &order in orders {
+                    ctx.count("special:subnormal:exhaustive-subsets");
+                    run_op(ctx, &format!("zc {} 1 {} {} {} {}", dim, order, n, n, fmt_f(&c)));
+                }
+            }
+        }
+    }
+    ctx.notes.push(format!(
+        "exhaustive sub-space (ZCurve subnormal cells): every subset of {{0..12}} x 5e-324 with {:?} elements ({} subsets) on each of {} axis placements, 3 input orders, one part per point",
+        sizes,
+        subsets,
+        placements.len()
+    ));
+    for _ in 0..ctx.budget(400, 6000) {
+        let dim = 2 + ctx.rng.usize(2);
+        let n = 2 + ctx.rng.usize(18);
+        let mag = ctx.rng.usize(6);
+        let shift = 1 + ctx.rng.usize(50) as i32;
+        let mut val = |rng: &mut Rng| -> f64 {
+            match mag {
+                0 => sub(rng.range(-12, 12)),
+                1 => sub(rng.range(0, 64)),
+                2 => sub(rng.range(-(1 << 20), 1 << 20)),
+                3 => sub(rng.range(-40, 40)) * (2.0f64).powi(shift),
+                4 => {
+                    // around the smallest normal 2^-1022 (bits 0x0010_0000_0000_0000)
+                    let v = f64::from_bits((0x0010_0000_0000_0000i64 + rng.range(-30, 30)) as u64);
+                    if rng.chance(1, 3) {
+                        -v
+                    } else {
+                        v
+                    }
+                }
+                _ => sub(rng.range(2, 9)),
+            }
+        };
+        let shape = ctx.rng.usize(4);
+        let mut c: Vec<f64> = Vec::with_capacity(n * dim);
+        let name = match shape {
+            0 | 1 => {
+                let axis = ctx.rng.usize(dim);
+                let other = match ctx.rng.usize(4) {
+                    0 => -0.0,
+                    1 => val(&mut ctx.rng),
+                    _ => 0.0,
+                };
+                for _ in 0..n {
+                    let v = val(&mut ctx.rng);
+                    for d in 0..dim {
+                        c.push(if d == axis { v } else { other });
+                    }
+                }
+                "axis-line"
+            }
+            2 => {
+                for _ in 0..n * dim {
+                    c.push(val(&mut ctx.rng));
+                }
+                "cloud"
+            }
+            _ => {
+                let signs: Vec<f64> = (0..dim).map(|d| if d > 0 && ctx.rng.chance(1, 2) { -1.0 } else { 1.0 }).collect();
+                for _ in 0..n {
+                    let v = val(&mut ctx.rng);
+                    for d in 0..dim {
+                        c.push(v * signs[d]);
+                    }
+                }
+                "diagonal"
+            }
+        };
+        let pool = [1usize, 1, 3, 4][ctx.rng.usize(4)];
+        let max_order = if dim == 2 { 64 } else { 42 };
+        let order = match ctx.rng.usize(4) {
+            0 => 12,
+            1 => 30,
+            2 => max_order,
+            _ => 1 + ctx.rng.usize(max_order),
+        };
+        let parts = match ctx.rng.usize(5) {
+            0 | 1 => n,
+            2 => (n - 1).max(1),
+            3 => 2 + ctx.rng.usize(2),
+            _ => gen_parts(ctx, n),
+        };
+        ctx.count(&format!("special:subnormal:{}:mag{}", name, mag));
+        run_op(ctx, &format!("zc {} {} {} {} {} {}", dim, pool, order, parts, n, fmt_f(&c)));
     }
 }
 
